@@ -82,12 +82,17 @@ impl RxCtrState {
         // in either direction. Encrypted only allows in forward direction
         else if is_forward {
             self.max_ctr = msg_ctr;
-            if udiff < MSG_RX_STATE_BITMAP_LEN {
-                // The previous max_ctr is now the actual counter
-                self.ctr_bitmap <<= udiff;
-                self.insert(udiff - 1);
+            // Slide the window forward: counters that were never received stay
+            // acceptable - whatever the size of the jump - so that a message which
+            // was merely overtaken is not mistaken for a duplicate.
+            self.ctr_bitmap = if udiff < MSG_RX_STATE_BITMAP_LEN {
+                self.ctr_bitmap << udiff
             } else {
-                self.ctr_bitmap = 0xffff;
+                0
+            };
+            if udiff <= MSG_RX_STATE_BITMAP_LEN {
+                // The previous max_ctr is now the actual counter
+                self.insert(udiff - 1);
             }
             true
         } else if !is_encrypted {
